@@ -84,7 +84,11 @@ theorem frame_infoOne (s : St) (t : Name) : Frame s (infoOne s t) := by
   simp only [infoOne]
   split
   · exact Frame.refl s
-  · exact frame_info s t
+  · split
+    · exact frame_crashed s
+    · split
+      · next h => exact frame_erase h
+      · exact Frame.refl s
 
 theorem frame_listOne (s : St) (t : Name) : Frame s (listOne s t) := by
   simp only [listOne]
@@ -192,14 +196,14 @@ theorem removes_cc (cmd : Cmd) (hro : cmd.readOnly = true) (s : St) :
 
 /-- exactly the situations in which `get_status(get_log=True).status` differs from `get_status(get_log=False).status`
     (no saved state of the wrong shape): a file dependency is missing and either (a) no early exit is taken, the checker
-    is unchanged and another dependency is modified -- the later `changed_file_dep` reason overwrites `error` with
-    `run`; or (b) the `get_log=False` call leaves early with `run` (false uptodate item, no dependencies, missing
+    is unchanged and another dependency is listed as changed -- the later `changed_file_dep` reason overwrites `error`
+    with `run`; or (b) the `get_log=False` call leaves early with `run` (false uptodate item, no dependencies, missing
     target, changed checker) while the `get_log=True` call goes on, meets the missing file and, no dependency being
-    modified, ends with `error`. -/
+    listed as changed, ends with `error`. -/
 def logDisagree (c : Checker) (d : TaskDef) (r : Rcd) (fs : FS) (resOf : Name → Option Res) : Bool :=
   d.deps.any (depMissing fs) &&
-    ((!earlyRun d r.getValues resOf fs && !checkerChanged c r && d.deps.any (depIs .modified c r fs))
-     || ((earlyRun d r.getValues resOf fs || checkerChanged c r) && !d.deps.any (depIs .modified c (logRcd c r) fs)))
+    ((!earlyRun d r.getValues resOf fs && !checkerChanged c r && d.deps.any (depListed c r fs))
+     || ((earlyRun d r.getValues resOf fs || checkerChanged c r) && !d.deps.any (depListed c (logRcd c r) fs)))
 
 theorem depIs_crash_empty (c : Checker) (fs : FS) (deps : List Path) :
     deps.any (depIs .crash c Rcd.empty fs) = false := by
@@ -208,28 +212,155 @@ theorem depIs_crash_empty (c : Checker) (fs : FS) (deps : List Path) :
   simp only [depIs]
   cases fs p <;> simp [depVerdict, Rcd.empty]
 
+theorem depRaises_le (c : Checker) (r : Rcd) (fs : FS) (p : Path) (h : depRaises c r fs p = true) :
+    depIs .crash c r fs p = true := by
+  simp only [depRaises] at h
+  simp only [depIs, depVerdict]
+  cases hf : fs p with
+  | none => simp [hf] at h
+  | some cur =>
+    cases hs : r.fstate p with
+    | none => simp [hf, hs] at h
+    | some st => simp only [hf, hs, Bool.and_eq_true] at h; simpa using h.2
+
+theorem any_depRaises_false {c : Checker} {r : Rcd} {fs : FS} {deps : List Path}
+    (h : deps.any (depIs .crash c r fs) = false) : deps.any (depRaises c r fs) = false := by
+  rw [List.any_eq_false] at h ⊢
+  intro p hp hr
+  exact h p hp (depRaises_le c r fs p hr)
+
+theorem depRaises_empty (c : Checker) (fs : FS) (deps : List Path) :
+    deps.any (depRaises c Rcd.empty fs) = false := any_depRaises_false (depIs_crash_empty c fs deps)
+
+theorem listed_of_modified {c : Checker} {r : Rcd} {fs : FS} {p : Path} (h : depIs .modified c r fs p = true) :
+    depListed c r fs p = true := by
+  simp only [depIs, depVerdict] at h
+  simp only [depListed]
+  cases hf : fs p with
+  | none => simp [hf] at h
+  | some cur =>
+    cases hs : r.fstate p with
+    | none => rfl
+    | some st => simp only [hf, hs] at h; simp [h]
+
+theorem listed_cases {c : Checker} {r : Rcd} {fs : FS} {p : Path} (h : depListed c r fs p = true) :
+    depIs .modified c r fs p = true ∨ notInPrev r p = true := by
+  simp only [depListed] at h
+  simp only [depIs, depVerdict]
+  cases hf : fs p with
+  | none => simp [hf] at h
+  | some cur =>
+    cases hs : r.fstate p with
+    | none => left; simp
+    | some st =>
+      simp only [hf, hs, Bool.or_eq_true] at h
+      rcases h with h | h
+      · exact Or.inr h
+      · left; simpa using h
+
+theorem notInPrev_depsChanged {r : Rcd} {deps : List Path} {p : Path} (hp : p ∈ deps) (h : notInPrev r p = true) :
+    depsChanged true r deps = true := by
+  simp only [notInPrev] at h
+  simp only [depsChanged]
+  cases hd : r.deps with
+  | none => simp [hd] at h
+  | some prev =>
+    simp only [hd, Bool.not_eq_true', decide_eq_false_iff_not] at h
+    simp only [if_true, sameSet, Bool.not_eq_true', Bool.and_eq_false_iff]
+    right
+    rw [List.all_eq_false]
+    exact ⟨p, hp, by simpa using h⟩
+
+theorem any_crash_cases {c : Checker} {r : Rcd} {fs : FS} {deps : List Path}
+    (h : deps.any (depIs .crash c r fs) = true) :
+    deps.any (depRaises c r fs) = true ∨ depsChanged true r deps = true := by
+  rw [List.any_eq_true] at h
+  obtain ⟨p, hp, h⟩ := h
+  cases hn : notInPrev r p with
+  | true => right; exact notInPrev_depsChanged hp hn
+  | false =>
+    left
+    rw [List.any_eq_true]
+    refine ⟨p, hp, ?_⟩
+    simp only [depIs, depVerdict] at h
+    simp only [depRaises, hn]
+    cases hf : fs p with
+    | none => simp [hf] at h
+    | some cur =>
+      cases hs : r.fstate p with
+      | none => simp [hf, hs] at h
+      | some st => simp only [hf, hs] at h; simpa using h
+
+theorem any_listed_of_modified {c : Checker} {r : Rcd} {fs : FS} {deps : List Path}
+    (h : deps.any (depIs .modified c r fs) = true) : deps.any (depListed c r fs) = true := by
+  rw [List.any_eq_true] at h ⊢
+  obtain ⟨p, hp, h⟩ := h
+  exact ⟨p, hp, listed_of_modified h⟩
+
+theorem any_listed_cases {c : Checker} {r : Rcd} {fs : FS} {deps : List Path}
+    (h : deps.any (depListed c r fs) = true) :
+    deps.any (depIs .modified c r fs) = true ∨ depsChanged true r deps = true := by
+  rw [List.any_eq_true] at h
+  obtain ⟨p, hp, h⟩ := h
+  rcases listed_cases h with h | h
+  · left; rw [List.any_eq_true]; exact ⟨p, hp, h⟩
+  · right; exact notInPrev_depsChanged hp h
+
 theorem getlog_agrees_iff (c : Checker) (d : TaskDef) (r : Rcd) (fs : FS) (resOf : Name → Option Res)
     (hnc : d.deps.any (depIs .crash c r fs) = false) :
-    statusLog c d r fs resOf = statusOf true c d r fs resOf ↔ logDisagree c d r fs resOf = false := by
-  unfold statusLog statusOf fileVerdict logDisagree logRcd
+    logStatus c d r fs resOf = statusOf true c d r fs resOf ↔ logDisagree c d r fs resOf = false := by
+  unfold logStatus statusOf fileVerdict logDisagree logRcd
   cases hcc : checkerChanged c r with
   | true =>
-    simp only [if_true, Bool.or_true, Bool.true_or, depIs_crash_empty, hnc]
+    simp only [if_true, Bool.or_true, Bool.true_or, depRaises_empty, hnc]
     cases earlyRun d r.getValues resOf fs <;>
     cases d.deps.any (depMissing fs) <;>
-    cases d.deps.any (depIs .modified c Rcd.empty fs) <;> simp
+    cases d.deps.any (depListed c Rcd.empty fs) <;> simp
   | false =>
-    simp only [Bool.false_eq_true, if_false, Bool.or_false, hnc]
+    have h1 := @any_listed_of_modified c r fs d.deps
+    have h2 := @any_listed_cases c r fs d.deps
+    simp only [Bool.false_eq_true, if_false, Bool.or_false, hnc, any_depRaises_false hnc]
+    generalize d.deps.any (depIs .modified c r fs) = Mo at h1 h2 ⊢
+    generalize d.deps.any (depListed c r fs) = L at h1 h2 ⊢
+    generalize depsChanged true r d.deps = DC at h2 ⊢
     cases earlyRun d r.getValues resOf fs <;>
     cases d.deps.any (depMissing fs) <;>
-    cases d.deps.any (depIs .modified c r fs) <;>
-    cases depsChanged true r d.deps <;> simp
+    cases Mo <;> cases L <;> cases DC <;> simp_all
 
 theorem getlog_agrees_of_present (c : Checker) (d : TaskDef) (r : Rcd) (fs : FS) (resOf : Name → Option Res)
     (hnc : d.deps.any (depIs .crash c r fs) = false) (hpres : d.deps.any (depMissing fs) = false) :
-    statusLog c d r fs resOf = statusOf true c d r fs resOf := by
+    logStatus c d r fs resOf = statusOf true c d r fs resOf := by
   rw [getlog_agrees_iff c d r fs resOf hnc]
   simp [logDisagree, hpres]
+
+/-- `doit info` and `doit run` agree on which tasks are up-to-date, in every state (whatever is saved) -/
+theorem logStatus_upToDate_iff (c : Checker) (d : TaskDef) (r : Rcd) (fs : FS) (resOf : Name → Option Res) :
+    logStatus c d r fs resOf = .upToDate ↔ statusOf true c d r fs resOf = .upToDate := by
+  unfold logStatus statusOf fileVerdict logRcd
+  cases hcc : checkerChanged c r with
+  | true =>
+    simp only [if_true, Bool.or_true, Bool.true_or]
+    cases earlyRun d r.getValues resOf fs <;>
+    cases d.deps.any (depMissing fs) <;>
+    cases d.deps.any (depRaises c Rcd.empty fs) <;> cases d.deps.any (depListed c Rcd.empty fs) <;> simp
+  | false =>
+    have h1 := @any_listed_of_modified c r fs d.deps
+    have h2 := @any_listed_cases c r fs d.deps
+    have h3 : d.deps.any (depRaises c r fs) = true → d.deps.any (depIs .crash c r fs) = true := by
+      intro h
+      cases hc : d.deps.any (depIs .crash c r fs) with
+      | true => rfl
+      | false => rw [any_depRaises_false hc] at h; cases h
+    have h4 := @any_crash_cases c r fs d.deps
+    simp only [Bool.false_eq_true, if_false, Bool.or_false]
+    generalize d.deps.any (depIs .modified c r fs) = Mo at h1 h2 ⊢
+    generalize d.deps.any (depListed c r fs) = L at h1 h2 ⊢
+    generalize depsChanged true r d.deps = DC at h2 h4 ⊢
+    generalize d.deps.any (depIs .crash c r fs) = Cr at h3 h4 ⊢
+    generalize d.deps.any (depRaises c r fs) = Ra at h3 h4 ⊢
+    cases earlyRun d r.getValues resOf fs <;>
+    cases d.deps.any (depMissing fs) <;>
+    cases Cr <;> cases Ra <;> cases Mo <;> cases L <;> cases DC <;> simp_all
 
 /-! ## reasons -/
 
@@ -268,8 +399,8 @@ theorem depsChanged_lists (r : Rcd) (deps : List Path) (h : depsChanged true r d
 
 /-- `info` prints no reason exactly when it reports `up-to-date` -/
 theorem reasons_isEmpty_iff (c : Checker) (d : TaskDef) (r : Rcd) (fs : FS) (resOf : Name → Option Res)
-    (hnc : d.deps.any (depIs .crash c (logRcd c r) fs) = false) :
-    (reasonsOf c d r fs resOf).isEmpty = true ↔ statusLog c d r fs resOf = .upToDate := by
+    (hnc : d.deps.any (depRaises c (logRcd c r) fs) = false) :
+    (reasonsOf c d r fs resOf).isEmpty = true ↔ logStatus c d r fs resOf = .upToDate := by
   have hck : (ckReason c r).isNone = !checkerChanged c r := by
     simp only [checkerChanged, ckReason]
     cases r.checker with
@@ -278,7 +409,7 @@ theorem reasons_isEmpty_iff (c : Checker) (d : TaskDef) (r : Rcd) (fs : FS) (res
   have hutd : (d.uptodate.filter fun u => evalUtd r.getValues resOf u == some false).isEmpty
       = !utdFalse r.getValues resOf d.uptodate := by
     rw [filter_isEmpty]; rfl
-  unfold statusLog
+  unfold logStatus
   simp only [Reasons.isEmpty, reasonsOf, hck, hutd, filter_isEmpty, hnc, Bool.false_eq_true, if_false]
   cases hdc : depsChanged true (logRcd c r) d.deps with
   | true =>
@@ -299,7 +430,7 @@ theorem reasons_isEmpty_iff (c : Checker) (d : TaskDef) (r : Rcd) (fs : FS) (res
         · cases h
   | false =>
     simp only [Bool.false_eq_true, if_false, Bool.or_false, List.isEmpty_nil, Bool.and_true, earlyRun]
-    cases d.deps.any (depIs .modified c (logRcd c r) fs) <;>
+    cases d.deps.any (depListed c (logRcd c r) fs) <;>
     cases d.deps.any (depMissing fs) <;>
     cases utdFalse r.getValues resOf d.uptodate <;>
     cases d.deps.isEmpty <;> cases utdEvaluated r.getValues resOf d.uptodate <;>
